@@ -202,6 +202,27 @@ pub fn check_compress(v: &[i64], l: usize, rep: &mut Report) {
     let vi2 = vi.clone();
     let a = monitored(move || vh::compress(&vi2, l));
     let b = spec::compress(v, l);
+    // the same vector at other memory placements (slices starting 2, 4, 6 bytes into an
+    // allocation): the result may not depend on where the input lives
+    if v.len() <= 1100 {
+        for off in 1..4usize {
+            let mut buf = vec![0i16; off];
+            buf.extend_from_slice(&vi);
+            let got = monitored(move || vh::compress(&buf[off..], l));
+            match (&got, &a) {
+                (Ok(x), Ok(y)) if x == y => {}
+                (Err(p), Ok(_)) => {
+                    rep.violation(&format!("panic:compress@{}", short_loc(&p.location)), format!("compress(n={}, L={}) panicked when the input slice starts {} bytes into its allocation (it does not for an aligned vector): {}", v.len(), l, 2 * off, p.message), json!({"kind": "compress", "v": v, "l": l}));
+                    break;
+                }
+                (Ok(x), Ok(y)) => {
+                    rep.violation("compress:depends-on-input-placement", format!("compress(n={}, L={}) gives {:?} for a slice starting {} bytes into its allocation and {:?} for an aligned vector", v.len(), l, x.as_ref().map(|z| z.len()), 2 * off, y.as_ref().map(|z| z.len())), json!({"kind": "compress", "v": v, "l": l}));
+                    break;
+                }
+                _ => {}
+            }
+        }
+    }
     let replay = || json!({"kind": "compress", "v": v, "l": l});
     match a {
         Err(p) => rep.violation(&format!("panic:compress@{}", short_loc(&p.location)), format!("compress(n={}, L={}) panicked: {}", v.len(), l, p.message), replay()),
